@@ -654,7 +654,6 @@ func c05Trim(err error) string {
 	return s
 }
 
-
 // ---- the validator set "designated by its parent" when the set changes ----
 //
 // A chain is built on a real node: genesis names the old set O; block 1 carries a transaction that
